@@ -5,5 +5,5 @@ From Coq Require Import ZArith NArith.
 From GV Require Import Marshal.Model Marshal.ModelRefactor.
 Extraction Language OCaml.
 Extraction "model.ml" Z.add N.add Nat.add Pos.add
-  Model.marshal Model.marshal_cst Model.go_unmarshal Model.KC
+  Model.marshal Model.marshal_cst Model.go_unmarshal Model.load_binary Model.KC
   ModelRefactor.refactor_cst ModelRefactor.refactor_unit ModelRefactor.dump ModelRefactor.dump_unit.
